@@ -134,19 +134,51 @@ func c16Guards(w *World, r *Report) {
 				guard{"min-create-revision-zero", []Lit{LIntLe("req.MinCreateRevision", 0)}, "Unimplemented"},
 				guard{"max-create-revision-zero", []Lit{LIntLe("req.MaxCreateRevision", 0)}, "Unimplemented"})
 		}
+		// where the request is vetted: the handler, and validation helpers it hands the request to
+		// and whose error it returns unchanged
+		type scope struct {
+			fn  *ssa.Function
+			ctx *ExprCtx
+		}
+		scopes := []scope{{fn, ctx}}
+		eachInstr(fn, func(in ssa.Instruction) {
+			call, ok := in.(*ssa.Call)
+			if !ok {
+				return
+			}
+			cal := StaticCallee(&call.Call)
+			if cal == nil || cal.Blocks == nil || !inModule(cal) || errorResultIndex(cal) < 0 || cal.Signature.Results().Len() != 1 {
+				return
+			}
+			hctx := &ExprCtx{Alias: map[ssa.Value]string{}}
+			hit := false
+			for i, a := range call.Call.Args {
+				if a == ssa.Value(rp) && i < len(cal.Params) {
+					hctx.Alias[cal.Params[i]] = "req"
+					hit = true
+				}
+			}
+			if !hit {
+				return
+			}
+			// the handler returns the helper's error as it is
+			passes := false
+			eachInstr(fn, func(x ssa.Instruction) {
+				if ret, isR := x.(*ssa.Return); isR {
+					if ei := errorResultIndex(fn); ei >= 0 && retVal(ret, ei) == ssa.Value(call) {
+						passes = true
+					}
+				}
+			})
+			if passes {
+				scopes = append(scopes, scope{cal, hctx})
+			}
+		})
 		for _, g := range gs {
 			ob.SiteS("KVServer." + h.name + ": " + g.name)
 			var rejecting []Loc
 			wk := &Walk{Target: isStorage, EdgeOK: func(b *ssa.BasicBlock, k int) bool {
-				for _, l := range ctx.EdgeLits(b, k) {
-					for _, need := range g.clause {
-						if l.Implies(need) {
-							// the sibling edge is the rejecting one (only for single-literal clauses)
-							return false
-						}
-					}
-				}
-				return true
+				return !ctx.EdgeEstablishes(b, k, g.clause)
 			}}
 			if p := wk.Find(entry(fn)); p != nil {
 				ob.Violate("guard-missing/"+g.name+"@"+h.name, instrPos(p.Hit), "KVServer."+h.name+" can call the storage service without `"+litsString(g.clause)+"` having been established", w.PathString(p)...)
@@ -154,19 +186,33 @@ func c16Guards(w *World, r *Report) {
 			}
 			// rejecting edges: edges whose literal implies the negation of the whole clause's first literal … for
 			// single-literal clauses the negation; for the two-literal clause the edge where both flags are true.
-			for _, b := range fn.Blocks {
-				for k := range b.Succs {
-					for _, l := range ctx.EdgeLits(b, k) {
-						if len(g.clause) == 1 {
-							for _, n := range g.clause[0].Not() {
-								if l.Implies(n) {
-									rejecting = append(rejecting, Loc{b.Succs[k], 0})
-								}
+			for _, sc := range scopes {
+				for _, b := range sc.fn.Blocks {
+					for k := range b.Succs {
+						ls := sc.ctx.EdgeLits(b, k)
+						if len(g.clause) > 1 {
+							hasK, hasC := false, false
+							for _, l := range ls {
+								hasK = hasK || l.Implies(LBool("req.KeysOnly"))
+								hasC = hasC || l.Implies(LBool("req.CountOnly"))
 							}
-						} else if l.Implies(LBool("req.CountOnly")) && edgeDominatedBy(ctx, b, LBool("req.KeysOnly")) {
-							rejecting = append(rejecting, Loc{b.Succs[k], 0})
-						} else if l.Implies(LBool("req.KeysOnly")) && edgeDominatedBy(ctx, b, LBool("req.CountOnly")) {
-							rejecting = append(rejecting, Loc{b.Succs[k], 0})
+							if hasK && hasC {
+								rejecting = append(rejecting, Loc{b.Succs[k], 0})
+								continue
+							}
+						}
+						for _, l := range ls {
+							if len(g.clause) == 1 {
+								for _, n := range g.clause[0].Not() {
+									if l.Implies(n) {
+										rejecting = append(rejecting, Loc{b.Succs[k], 0})
+									}
+								}
+							} else if l.Implies(LBool("req.CountOnly")) && edgeDominatedBy(sc.ctx, b, LBool("req.KeysOnly")) {
+								rejecting = append(rejecting, Loc{b.Succs[k], 0})
+							} else if l.Implies(LBool("req.KeysOnly")) && edgeDominatedBy(sc.ctx, b, LBool("req.CountOnly")) {
+								rejecting = append(rejecting, Loc{b.Succs[k], 0})
+							}
 						}
 					}
 				}
@@ -182,7 +228,7 @@ func c16Guards(w *World, r *Report) {
 					// allow rundefers etc.; search the first return reachable without branching
 					continue
 				}
-				ei := errorResultIndex(fn)
+				ei := errorResultIndex(rj.B.Parent())
 				code := statusCodeOf(retVal(ret, ei))
 				if code != want {
 					ob.Violate("reject-code/"+g.name+"@"+h.name, ret.Pos(), fmt.Sprintf("KVServer.%s rejects a request violating `%s` with `%s` (code %d), %s expected", h.name, g.name, Expr(retVal(ret, ei)), code, g.code))
@@ -376,40 +422,61 @@ func c16Validator(w *World, ob *Ob, fn *ssa.Function, maxKey, maxVal int64) {
 			}
 		}
 	})
-	type bad struct {
+	type good struct {
 		name string
 		lit  Lit
 	}
-	bads := []bad{
-		{"empty-key", LIntEq("len(put.Key)", 0)},
-		{"key-too-long", LIntGe("len(put.Key)", maxKey+1)},
-		{"value-too-long", LIntGe("len(put.Value)", maxVal+1)},
+	goods := []good{
+		{"empty-key", lenGE1("put.Key")},
+		{"key-too-long", LIntLe("len(put.Key)", maxKey)},
+		{"value-too-long", LIntLe("len(put.Value)", maxVal)},
 	}
-	for _, bd := range bads {
-		found := false
-		for _, b := range fn.Blocks {
-			for k := range b.Succs {
-				for _, l := range ctx.EdgeLits(b, k) {
-					// the edge must cover the whole bad region: bad ⇒ l (the check rejects at least everything bad)
-					if !bd.lit.Implies(l) || l.Kind != "int" {
-						continue
+	// from the point where the nested put is known, the next operation (loop head) or a nil return
+	// is reachable only after each limit was established for this put (directly or through a
+	// helper given the put's key and value) - or over the edge on which the operation is no put
+	var starts []ssa.Instruction
+	for v := range ctx.Alias {
+		if in, ok := v.(ssa.Instruction); ok {
+			starts = append(starts, in)
+		}
+	}
+	if len(starts) == 0 {
+		ob.Violate("validator-misses/no-put@"+FnName(fn), fn.Pos(), "the validator of nested transaction operations does not look at nested puts")
+	}
+	for _, gd := range goods {
+		okAll := true
+		for _, st := range starts {
+			h, body := loopOf(st.Block())
+			wk := &Walk{
+				Target: func(x ssa.Instruction) bool {
+					if h != nil && x.Block() == h && x == h.Instrs[0] {
+						return true
 					}
-					// …and be a rejecting edge: only non-nil returns reachable
-					okEdge := true
-					for _, in := range (&Walk{}).ReachableInstrs(Loc{b.Succs[k], 0}) {
-						if isSuccessReturn(in) {
-							okEdge = false
+					return isSuccessReturn(x)
+				},
+				EdgeOK: func(b *ssa.BasicBlock, k int) bool {
+					for _, l := range ctx.EdgeLits(b, k) {
+						if l.Implies(gd.lit) {
+							return false
+						}
+						if l.Kind == "eq" && !l.Neg && l.B == "nil" && l.A == "put" {
+							return false // not a put
+						}
+						if l.Kind == "eq" && l.Neg && strings.HasPrefix(l.A, "dyn(") && strings.Contains(l.B, "RequestOp_RequestPut") {
+							return false // not a put (type switch form)
 						}
 					}
-					if okEdge {
-						found = true
-						ob.Site(blockPos(b.Succs[k]), "validator "+FnName(fn)+" rejects "+bd.name+" ("+l.String()+")")
-					}
-				}
+					_ = body
+					return true
+				},
+			}
+			if p := wk.Find(after(st)); p != nil {
+				okAll = false
+				ob.Violate("validator-misses/"+gd.name+"@"+FnName(fn), instrPos(p.Hit), "the validator of nested transaction operations can go on to the next operation (or return nil) without `"+gd.lit.String()+"` having been established for a nested put", w.PathString(p)...)
 			}
 		}
-		if !found {
-			ob.Violate("validator-misses/"+bd.name+"@"+FnName(fn), fn.Pos(), "the validator of nested transaction operations does not reject a put with "+bd.name+" (no edge covering `"+bd.lit.String()+"` from which only error returns are reachable)")
+		if okAll && len(starts) > 0 {
+			ob.SiteS("validator " + FnName(fn) + " establishes " + gd.lit.String() + " for every nested put")
 		}
 	}
 	// every put of the list is looked at: the nil return is not reachable from inside the loop other than through the loop head
